@@ -136,8 +136,23 @@ theorem originator_delivers_only_genuine (L : A.Laws) (nd : Node A) (c c' : Cell
     (hc : List.lookup c.cid nd.circuits = some ce) (hs : ce.hs = none)
     (h : (processCell nd c).2 = .deliver c') :
     c'.cid = c.cid ∧ c'.plaintext = c.plaintext ∧
-    (c.plaintext = false → ∃ kn : List (A.Key × Nat), kn.map Prod.fst = ce.hops ∧ c.msg = encLayers A .bwd kn c'.msg) :=
+    (c.plaintext = false → ce.hops ≠ [] ∧
+      ∃ kn : List (A.Key × Nat), kn.map Prod.fst = ce.hops ∧ c.msg = encLayers A .bwd kn c'.msg) :=
   orig_deliver_inv L nd c c' ce hr hx hc hs h
+
+/-- **No keys, no delivery.**  On an own circuit that has no hop yet (still waiting for the created message) there is
+    no session key at all; every cell that is not flagged plaintext is dropped there, whatever it contains.
+    (Before the repair of `incoming_crypto` such a cell passed "decryption under zero keys" and was delivered as
+    circuit data — found by this check, see known_findings.d/C04.json.) -/
+theorem no_keys_no_delivery (nd : Node A) (c : Cell) (ce : CircuitE A)
+    (hr : List.lookup c.cid nd.relays = none) (hx : List.lookup c.cid nd.exits = none)
+    (hc : List.lookup c.cid nd.circuits = some ce) (h0 : ce.hops = []) (hp : c.plaintext = false) :
+    (processCell nd c).2 = .drop .noKeys := by
+  simp [processCell, hr, incomingCrypto_own nd c ce hx hc, h0, hp]
+
+example : (processCell (A := toy)
+      { addr := 0, circuits := [(10, ⟨[], 1, none, .data, 1⟩)], relays := [], exits := [], maxEarly := 8, ctr := 0 }
+      ⟨10, false, false, [1, 0, 0]⟩).2 = .drop .noKeys := by decide
 
 /-- **Only create/created may be plaintext.**  A cell flagged plaintext whose message id is not 2 or 3 is dropped by
     every node, relay or endpoint, whatever its tables contain. -/
@@ -147,5 +162,70 @@ theorem only_create_created_plain (nd : Node A) (c : Cell) (hp : c.plaintext = t
 
 example : (processCell Ex.x ⟨11, true, false, [1, 0, 0]⟩).2 = .drop .plaintextRule := by decide
 example : (processCell Ex.r ⟨10, true, false, [2, 0, 0]⟩).2 = .drop .notEncrypted := by decide
+
+/-! ### end-to-end (hidden-service) circuits
+
+Full statement (kept visible; only the per-node parts below are proved — `e2e_path_partial`):
+  for a downloader circuit with hop keys a₁…a_p (a_p = rendezvous point, downloader side), a seeder circuit with hop keys
+  b₁…b_q (b_q = rendezvous point, seeder side) and e2e key h: data sent by the downloader is delivered unchanged to the
+  seeder and vice versa; the bodies on the links are  enc a_i..a_p F (enc h B m)  before the rendezvous point and
+  enc b_j..b_q B (enc h B m)  after it (F/B swapped for the e2e layer in the other direction), so every link carries the
+  e2e layer plus at least one hop layer and no two links carry the same bytes.
+What is missing: the composition of the per-node steps along the whole e2e path (an `E2EChain` predicate and the
+induction over it, as done for `FwdChain`/`BwdChain`).  The per-node steps are proved below; the composed behaviour is
+checked against the real code by the e2e scenario of the correspondence run (3 links, both directions). -/
+
+/-- **The rendezvous point never sees below its own layer.**  It strips the downloader-side hop layer, adds the
+    seeder-side one (backward direction) and passes the content on untouched; when that content is an e2e ciphertext,
+    what it emits is still two layers away from the payload and differs from what it received. -/
+theorem rendezvous_never_plain (L : A.Laws) (nd : Node A) (cid cid' nxt nxt' e e' n n' : Nat) (kD kS hk : A.Key)
+    (dS dh : Dir) (m : Bytes)
+    (h1 : List.lookup cid nd.relays = some ⟨cid', kD, .fwd, true, nxt, e⟩)
+    (h2 : List.lookup cid' nd.relays = some ⟨cid, kS, dS, true, nxt', e'⟩) :
+    (processCell nd ⟨cid, false, false, A.enc kD .fwd n (A.enc hk dh n' m)⟩).2 =
+      .forward nxt ⟨cid', false, false, A.enc kS .bwd nd.ctr (A.enc hk dh n' m)⟩ ∧
+    (A.enc kS .bwd nd.ctr (A.enc hk dh n' m)).length = m.length + 2 * L.ovh ∧
+    A.enc kS .bwd nd.ctr (A.enc hk dh n' m) ≠ A.enc kD .fwd n (A.enc hk dh n' m) ∧
+    A.enc kS .bwd nd.ctr (A.enc hk dh n' m) ≠ m := by
+  refine ⟨rendezvous_step L nd cid cid' nxt nxt' e e' n kD kS dS false _ h1 h2 (by simp), ?_, ?_, ?_⟩
+  · rw [L.len_enc, L.len_enc]; omega
+  · intro h; exact absurd (L.sep _ _ _ _ _ _ _ _ h).2.1 (by decide)
+  · intro h
+    have := congrArg List.length h
+    rw [L.len_enc, L.len_enc] at this
+    have := L.ovh_pos
+    omega
+
+/-- the owner of an e2e circuit wraps the message in the end-to-end layer and then in every hop layer -/
+theorem e2e_sender_wraps (nd : Node A) (c : Cell) (ce : CircuitE A) (hk : A.Key) (hp : c.plaintext = false)
+    (hc : List.lookup c.cid nd.circuits = some ce) (hs : ce.hs = some hk) :
+    outgoingCrypto nd c = some { c with msg := encLayers A .fwd (withNonces A nd.ctr ce.hops)
+                                                  (A.enc hk (hsDirOut ce.ctype) (nd.ctr + ce.hops.length) c.msg) } :=
+  e2e_outgoing nd c ce hk hp hc hs
+
+/-- what the owner of an e2e circuit delivers is the content of a genuine e2e ciphertext inside genuine hop layers -/
+theorem e2e_delivers_only_genuine (L : A.Laws) (nd : Node A) (c c' : Cell) (ce : CircuitE A) (hk : A.Key)
+    (hr : List.lookup c.cid nd.relays = none) (hx : List.lookup c.cid nd.exits = none)
+    (hc : List.lookup c.cid nd.circuits = some ce) (hs : ce.hs = some hk) (hp : c.plaintext = false)
+    (h : (processCell nd c).2 = .deliver c') :
+    c'.cid = c.cid ∧ ∃ (kn : List (A.Key × Nat)) (n : Nat), kn.map Prod.fst = ce.hops ∧
+      c.msg = encLayers A .bwd kn (A.enc hk (hsDirIn ce.ctype) n c'.msg) :=
+  e2e_deliver_inv L nd c c' ce hk hr hx hc hs hp h
+
+/-- the two ends use matching directions for the e2e layer, and an end never accepts an e2e ciphertext it made itself
+    (a cell reflected by the rendezvous point is refused) -/
+theorem e2e_path_partial (L : A.Laws) (hk : A.Key) (n : Nat) (m : Bytes) :
+    hsDirOut .rpDownloader = hsDirIn .rpSeeder ∧ hsDirOut .rpSeeder = hsDirIn .rpDownloader ∧
+    A.dec hk (hsDirIn .rpDownloader) (A.enc hk (hsDirOut .rpDownloader) n m) = none ∧
+    A.dec hk (hsDirIn .rpSeeder) (A.enc hk (hsDirOut .rpSeeder) n m) = none :=
+  ⟨hsDir_match.1, hsDir_match.2.1,
+   dec_other_none L n m (Or.inr hsDir_match.2.2.1), dec_other_none L n m (Or.inr hsDir_match.2.2.2)⟩
+
+/-- a rendezvous node over the toy AEAD: circuit 20 (downloader side, key 3) ↔ circuit 21 (seeder side, key 4) -/
+example : (processCell (A := toy)
+      { addr := 5, circuits := [], exits := [], maxEarly := 8, ctr := 2,
+        relays := [(20, ⟨21, (3 : UInt8), .fwd, true, 6, 1⟩), (21, ⟨20, (4 : UInt8), .fwd, true, 7, 1⟩)] }
+      ⟨20, false, false, toyEnc 3 .fwd 0 (toyEnc 9 .bwd 0 Ex.msg)⟩).2
+    = .forward 6 ⟨21, false, false, toyEnc 4 .bwd 2 (toyEnc 9 .bwd 0 Ex.msg)⟩ := by decide
 
 end Ipv8.C04
